@@ -4,6 +4,8 @@ One request per line, TAB separated; one response line per request.
 -/
 import DsdVerif.Spec.Iupac
 import DsdVerif.Model.Units
+import DsdVerif.Spec.Symbols
+import DsdVerif.Model.Complex
 
 namespace Dsd.Driver
 open Dsd
@@ -27,6 +29,45 @@ def words (s : String) : List String := (s.splitOn " ").filter (· ≠ "")
 def showUnitsErr : Units.Err → String
   | .valueError => "err ValueError" | .keyError => "err KeyError"
   | .objectInit => "err ObjectInitError" | .notImplemented => "err NotImplementedError"
+
+def showErr : Err → String
+  | .secondaryStructure => "err SecondaryStructureError"
+  | .objectInit => "err ObjectInitError"
+  | .singleton none => "err SingletonError existing=none"
+  | .singleton (some h) => s!"err SingletonError existing=h{h}"
+  | .notImplemented => "err NotImplementedError"
+  | .assertion => "err AssertionError"
+  | .pilFormat => "err PilFormatError"
+  | .parse => "err ParseException"
+  | .fault k => "err Fault " ++ k
+
+def showLocus : Option Locus → String
+  | none => "-"
+  | some (s, d) => s!"{s}.{d}"
+
+def showPt (pt : PairTable) : String :=
+  "|".intercalate (pt.map (fun st => ",".intercalate (st.map showLocus)))
+
+def parseLocus (s : String) : Option (Option Locus) :=
+  if s == "-" then some none else
+  match s.splitOn "." with
+  | [a, b] => do let a ← a.toNat?; let b ← b.toNat?; some (some (a, b))
+  | _ => none
+
+def parsePt (s : String) : Option PairTable :=
+  (s.splitOn "|").mapM (fun st => if st == "" then some [] else (st.splitOn ",").mapM parseLocus)
+
+def showNatLL (l : List (List Nat)) : String :=
+  "|".intercalate (l.map (fun st => ",".intercalate (st.map toString)))
+
+def showNames (l : List String) : String := " ".intercalate l
+
+def firstChar (s : String) : Char := s.toList.headD '+'
+
+def showSplit (parts : List (List (List String) × PairTable)) : String :=
+  " ; ".intercalate (parts.map (fun p =>
+    (match strandTableToSequence "+" p.1 with | .ok s => showNames s | .error _ => "<empty>")
+      ++ " / " ++ String.ofList (ptToDb p.2)))
 
 def step (line : String) : String :=
   match line.splitOn "\t" with
@@ -72,6 +113,55 @@ def step (line : String) : String :=
       | .ok r => "ok " ++ showRat r
       | .error e => showUnitsErr e
     | _, _ => "bad-op"
+  | ["mpt", ss, brk] =>
+    match makePairTable ss.toList (firstChar brk) with
+    | .ok pt => "ok " ++ showPt pt
+    | .error e => showErr e
+  | ["ptdb", pt, brk] =>
+    match parsePt pt with
+    | some pt => "ok " ++ String.ofList (ptToDb pt (firstChar brk))
+    | none => "bad-op"
+  | ["mst.str", seq, brk] =>
+    "ok " ++ "|".intercalate ((makeStrandTableStr (firstChar brk) seq.toList).map String.ofList)
+  | ["mst.list", seq, brk] =>
+    "ok " ++ "|".intercalate ((makeStrandTableList brk (words seq)).map showNames)
+  | ["stseq", st, brk] =>
+    let tab := if st == "" then [] else (st.splitOn "|").map words
+    match strandTableToSequence brk tab with
+    | .ok s => "ok " ++ showNames s
+    | .error e => showErr e
+  | ["rot1", seq, sst] =>
+    match rotateOnce (words seq) sst.toList with
+    | .ok (a, b) => "ok " ++ showNames a ++ " / " ++ String.ofList b
+    | .error e => showErr e
+  | ["rotpt", ss] =>
+    match makePairTable ss.toList with
+    | .error e => showErr e
+    | .ok pt =>
+      let stab := (splitOn '+' ss.toList)
+      "ok " ++ " ; ".intercalate ((rotationsPt stab pt).map (fun r =>
+        "|".intercalate (r.1.map String.ofList) ++ " / " ++ showPt r.2 ++ " / " ++ String.ofList (ptToDb r.2)))
+  | ["loop", ss, comp] =>
+    match makePairTable ss.toList with
+    | .error e => showErr e
+    | .ok pt =>
+      match makeLoopIndex pt (comp == "1") with
+      | .error e => showErr e
+      | .ok lo =>
+        if comp == "1" then "ok " ++ showNatLL lo.loopIndex ++ " / " ++
+          " ".intercalate (lo.myext.map (fun p => s!"{p.1}:{p.2}"))
+        else "ok " ++ showNatLL lo.loopIndex ++ " / " ++
+          " ".intercalate ((lo.exterior.mergeSort (· ≤ ·)).map toString)
+  | ["split", seq, ss] =>
+    match makePairTable ss.toList with
+    | .error e => showErr e
+    | .ok pt =>
+      let stab := makeStrandTableList "+" (words seq)
+      match splitPt (pt.length + 1) stab pt with
+      | .ok parts => "ok " ++ showSplit parts
+      | .error e => showErr e
+  | ["symbols.unresolved"] =>
+    "refs " ++ " ".intercalate (Symbols.unresolved.map (fun r => r.1 ++ ":" ++ r.2.1 ++ ":" ++ r.2.2))
   | _ => "bad-op"
 
 end Dsd.Driver
